@@ -47,8 +47,6 @@ def _judge(kind, target, value, out):
     tt, vt = my_type(target), my_type(value)
     if shape(tt) != shape(vt):
         out.append((kind + "-shape", tt, vt))
-    elif _narrow(tt, vt):
-        out.append((kind + "-narrowing", tt, vt))
 
 
 def _walk(node, ret_type, out, depth=0):
